@@ -132,6 +132,38 @@ SB_OP(rthconv)
     if (rc == SB_SUCCESS) {
         add(out, hex(SB_BUFFER(tr.buffer), sb_buffer_size(&tr.buffer)));
         addu(out, sb_trajectory_get_total_duration_msec(&tr));
+        // the property is observed through the library's own player as well (seed C12-23): positions at two interior
+        // instants (not the midpoint) of every segment of the generated trajectory - the first 48 and the last ones reached
+        // within 96 steps -, chosen here from the segment boundaries the player reports; printed as
+        // "P <time bits> <rc> <x bits> <y bits> <z bits>" for the judge, which compares them with the ideal path
+        sb_trajectory_player_t pl;
+        memset(&pl, SBH_FILL, sizeof(pl));
+        if (sb_trajectory_player_init(&pl, &tr) == SB_SUCCESS) {
+            std::vector<float> ts;
+            for (int seg = 0; seg < 96; seg++) {
+                const sb_trajectory_segment_t* sg = sb_trajectory_player_get_current_segment(&pl);
+                uint32_t st = sg->start_time_msec;
+                uint32_t du = sg->duration_msec;
+                if (du > 0 && (seg < 48 || !sb_trajectory_player_has_more_segments(&pl))) {
+                    ts.push_back((float)(((double)st + 0.2 * (double)du) / 1000.0));
+                    ts.push_back((float)(((double)st + 0.7 * (double)du) / 1000.0));
+                }
+                if (!sb_trajectory_player_has_more_segments(&pl)) break;
+                if (sb_trajectory_player_build_next_segment(&pl) != SB_SUCCESS) break;
+            }
+            for (float tt : ts) {
+                sb_vector3_with_yaw_t r;
+                memset(&r, SBH_FILL, sizeof(r));
+                sb_error_t qrc = sb_trajectory_player_get_position_at(&pl, tt, &r);
+                add(out, "P");
+                add(out, fbits(tt));
+                add(out, (long long)qrc);
+                add(out, fbits(r.x));
+                add(out, fbits(r.y));
+                add(out, fbits(r.z));
+            }
+            sb_trajectory_player_destroy(&pl);
+        }
         sb_trajectory_destroy(&tr);
     }
 }
